@@ -192,6 +192,31 @@ class RobotDriver:
         self.quiesce(seen)
         return True
 
+    def jump(self, k, period_us):
+        """advance the clock by k periods in ONE step while the robot thread sleeps (a stalled process, a
+        debugger, a long GC pause): the loop then has to catch up, i.e. enter its wait k more times"""
+        if self.ended:
+            return False
+        nxt = self.next_alarm()
+        now = now_us()
+        if nxt is None:
+            raise HarnessError("robot thread is idle but no notifier alarm is armed")
+        seen = self.g.entries
+        hs.stepTimingAsync((nxt - now) + (k - 1) * period_us)
+        deadline = time.time() + self.HANG_S
+        with self.g.cv:
+            while self.g.entries < seen + k and not self.ended:
+                left = deadline - time.time()
+                if left <= 0:
+                    break  # fewer iterations than periods elapsed: the caller judges that
+                if not self.g.cv.wait(min(left, 0.05)):
+                    nx = hs.getNextNotifierTimeout()
+                    if nx and nx < (1 << 62) and nx > now_us() and self.g.entries > seen:
+                        break  # the loop already sleeps until a future alarm
+                    self.pokes += 1
+                    hs.stepTimingAsync(0)
+        return True
+
     def step_partial(self, us):
         """advance by less than the distance to the next alarm (nothing may run)"""
         nxt = self.next_alarm()
